@@ -402,6 +402,9 @@ func init() {
 			{Services: []cfgService{{Name: "app", Clusters: []string{"default"}, Blocks: []cfgBlock{{Route: base, Extras: []cfgRoute{{From: "api.x.io"}, {From: "adm.x.io", To: "adm.internal", Options: O(func(o *cfgOpts) { o.Addrs = []string{"root@x.io"}; o.Timeout = 9 })}}}}}}, Cluster: "prod", DefDoms: []string{"x.io"}},
 			{Services: []cfgService{{Name: "app", Clusters: []string{"default"}, Blocks: []cfgBlock{{Route: cfgRoute{From: "{{cluster}}.x.io", To: "app.{{cluster}}.internal"}}}}}, Cluster: "prod", DefDoms: []string{"x.io"}, Vars: map[string]string{"cluster": "prod", "app_signing_key": "sha256:secret"}},
 			{Services: []cfgService{{Name: "app", Clusters: []string{"default"}, Blocks: []cfgBlock{{Route: base}}}}, Cluster: "prod", Vars: map[string]string{"app_signing_key": "nope"}},
+			// every listed skip-auth pattern compiles or the load fails — wherever in the list the bad one stands
+			{Services: []cfgService{{Name: "app", Clusters: []string{"default"}, Blocks: []cfgBlock{{Route: cfgRoute{From: "app.x.io", To: "app.internal", Options: O(func(o *cfgOpts) { o.SkipAuthRegex = []string{"(", "^/ok$"} })}}}}}, Cluster: "prod", DefDoms: []string{"x.io"}},
+			{Services: []cfgService{{Name: "app", Clusters: []string{"default"}, Blocks: []cfgBlock{{Route: cfgRoute{From: "app.x.io", To: "app.internal", Options: O(func(o *cfgOpts) { o.SkipAuthRegex = []string{"^/a", "^/hook/(?!admin).*$", "^/b"} })}}}}}, Cluster: "prod", DefDoms: []string{"x.io"}},
 			// template variables the deployment does not define stay as written (and never turn a pattern into one that matches everything)
 			{Services: []cfgService{{Name: "app", Clusters: []string{"default"}, Blocks: []cfgBlock{{Route: cfgRoute{From: "app.x.io", To: "app.internal", Options: O(func(o *cfgOpts) { o.SkipAuthRegex = []string{"^{{webhook_path}}", "{{public_prefix}}"} })}}}}}, Cluster: "prod", DefDoms: []string{"x.io"}, Vars: map[string]string{"cluster": "prod"}},
 			{Services: []cfgService{{Name: "app", Clusters: []string{"default"}, Blocks: []cfgBlock{{Route: cfgRoute{From: "app.x.io", To: "app.{{zone}}.internal"}}}}}, Cluster: "prod", DefDoms: []string{"x.io"}, Vars: map[string]string{"cluster": "prod"}},
@@ -418,7 +421,7 @@ func init() {
 		tos := []string{"app.internal", "http://app.internal:8080", "app.{{cluster}}.internal", "%%%", "app.{{zone}}.internal", "{{CLUSTER}}.internal"}
 		pick := func(l []string) string { return l[rng.Intn(len(l))] }
 		lists := [][]string{nil, nil, {"a"}, {"a", "b"}, {"*"}}
-		regs := [][]string{nil, nil, {"^/health$"}, {"^/a", "("}, {"^/{{cluster}}/"}, {"^{{webhook_path}}"}, {"{{public_prefix}}", "^/ok$"}, {"^/{{ cluster }}/"}}
+		regs := [][]string{nil, nil, {"^/health$"}, {"^/a", "("}, {"^/{{cluster}}/"}, {"^{{webhook_path}}"}, {"{{public_prefix}}", "^/ok$"}, {"^/{{ cluster }}/"}, {"(", "^/ok$"}, {"^/a", "^/hook/(?!admin).*$", "^/b"}}
 		maps := []map[string]string{nil, nil, {"X-Frame-Options": "DENY"}, {"X-A": "1", "X-B": ""}, {"X-A": "2"}}
 		mkOpts := func() *cfgOpts {
 			if rng.Intn(3) == 0 {
